@@ -43,6 +43,11 @@ for sid in sorted(os.listdir(SEEDED)):
         sh(["git", "-C", "/repo", "checkout", "--", "."])
         sh(["git", "-C", ROOT, "checkout", "--", "evidence/"])
     print(rows[-1], flush=True)
+    # written after every seed, so that an interrupted sweep still leaves what it found
+    with open(os.path.join(ROOT, "notes", "seed-regression.txt"), "w") as f:
+        f.write("# tools/run_seeds.py: every kept seeded change applied to /repo in turn, the property's quick check run, undone\n")
+        for r in rows:
+            f.write("%-50s %-16s %s\n" % r)
 with open(os.path.join(ROOT, "notes", "seed-regression.txt"), "w") as f:
     f.write("# tools/run_seeds.py: every kept seeded change applied to /repo in turn, the property's quick check run, undone\n")
     for r in rows:
